@@ -37,14 +37,6 @@ BACKTRACK_UNITS = ['1', '0', '9', '1_', '_', '0x1', '0b1', '1:', ':1', '1.', '.1
 BACKTRACK_TAILS = ['x', ' x', ':', '.', '_', '-', '!', ' ', 'T', 'Z', ':x', '.x', 'e', 'ee', '+', '\n-']
 
 
-class _Hang(Exception):
-    pass
-
-
-def _alarm(signum, frame):
-    raise _Hang()
-
-
 HEX_TAILS = ['', '0', '00', '41', '004', '0041', '00000', '000041', '0000004', '00000041', 'D800', 'DFFF', 'FFFE',
              '00110000', '0010FFFF', '7FFFFFFF', '80000000', 'FFFFFFFF', 'zz', '0g', '0000D800', '0000FFFF', '00000000']
 
@@ -94,27 +86,57 @@ def _payload(case):
     return case['input'] if isinstance(case, dict) else case
 
 
+class _Hang(BaseException):
+    pass
+
+
+class _TooManyHangs(Exception):
+    pass
+
+
+def _alarm(signum, frame):
+    raise _Hang()
+
+
+CASE_SECONDS = 10.0
+
+
 def run_input(T, sub, case, data, via=None, backends=BACKENDS, apis=APIS):
-    """the real code is executed here: every API x back-end on one input"""
+    """the real code is executed here: every API x back-end on one input, under a per-input time limit (a Python-level
+    endless loop is interrupted by SIGALRM and reported at once; a hang inside C code is left to the engine watchdog)"""
+    import signal
     nchars, nbytes = _declen(data)
     nontriv = 0
-    for be, Loader in backends:
-        for an, api in apis:
-            src = data if via is None else ChunkStream(data, (via,))
-            T.evaluations += 1
-            try:
-                res = list(api(src, Loader=Loader))
-                if an == 'parse' and be == 'py' and len(res) > 5:
+    signal.signal(signal.SIGALRM, _alarm)
+    signal.setitimer(signal.ITIMER_REAL, CASE_SECONDS)
+    try:
+        for be, Loader in backends:
+            for an, api in apis:
+                src = data if via is None else ChunkStream(data, (via,))
+                T.evaluations += 1
+                try:
+                    res = list(api(src, Loader=Loader))
+                    if an == 'parse' and be == 'py' and len(res) > 5:
+                        nontriv = 1
+                except yaml.YAMLError as e:
                     nontriv = 1
-            except yaml.YAMLError as e:
-                nontriv = 1
-                check_error(T, sub, case, be, an, e, nchars, nbytes)
-            except RecursionError:
-                T.count('recursion_out_of_scope')
-            except BaseException as e:        # anything else violates the property
-                T.violation(sub, 'non-yaml-exception:' + type(e).__name__, case,
-                            detail='%s/%s raised %s: %s' % (be, an, type(e).__name__, str(e)[:200]))
-                break
+                    check_error(T, sub, case, be, an, e, nchars, nbytes)
+                except RecursionError:
+                    T.count('recursion_out_of_scope')
+                except _Hang:
+                    raise
+                except BaseException as e:        # anything else violates the property
+                    T.violation(sub, 'non-yaml-exception:' + type(e).__name__, case,
+                                detail='%s/%s raised %s: %s' % (be, an, type(e).__name__, str(e)[:200]))
+                    break
+    except _Hang:
+        T.violation(sub, 'hang', case, detail='did not terminate within %.0f s' % CASE_SECONDS)
+        T.count('hangs')
+        if T.counters['hangs'] >= 3:
+            signal.setitimer(signal.ITIMER_REAL, 0)
+            raise _TooManyHangs()
+    finally:
+        signal.setitimer(signal.ITIMER_REAL, 0)
     T.nontrivial += nontriv
 
 
@@ -154,6 +176,13 @@ def plan(tier, seed):
 
 
 def run_job(job, T):
+    try:
+        _run_job(job, T)
+    except _TooManyHangs:
+        T.count('job-abandoned-after-3-hangs')
+
+
+def _run_job(job, T):
     kind = job[0]
     if kind == 'str':
         _, n, prefix = job
@@ -264,7 +293,7 @@ def run_job(job, T):
     elif kind == 'backtrack':
         import signal, time
         u = BACKTRACK_UNITS[job[1]]
-        old = signal.signal(signal.SIGALRM, _alarm)
+        old = signal.getsignal(signal.SIGALRM)
         try:
             for n in (24, 32, 48, 64, 200):
                 for tail in BACKTRACK_TAILS:
@@ -272,15 +301,7 @@ def run_job(job, T):
                         doc = frame % (u * n + tail)
                         c = {'input': doc}
                         if T.trace: T.begin(c)
-                        signal.setitimer(signal.ITIMER_REAL, 5.0)
-                        t0 = time.time()
-                        try:
-                            run_input(T, 'backtracking', c, doc, apis=APIS[2:])
-                        except _Hang:
-                            T.violation('backtracking', 'hang', c, detail='input of %d characters (unit %r x %d + %r) took more than 5 s' % (len(doc), u, n, tail))
-                            break
-                        finally:
-                            signal.setitimer(signal.ITIMER_REAL, 0)
+                        run_input(T, 'backtracking', c, doc, apis=APIS[2:])
         finally:
             signal.signal(signal.SIGALRM, old)
         T.sample('backtracking', {'input': doc})
